@@ -162,6 +162,7 @@ fn run_d(ops: &str) -> String {
             }
         };
         let mut now: Option<u64> = None;
+        let mut stamped: Option<u32> = None;
         let res: String = match p[0] {
             "a" => {
                 now = Some(num(1));
@@ -256,6 +257,7 @@ fn run_d(ops: &str) -> String {
                 "ok".into()
             }
             "L" => {
+                stamped = Some(num(1) as u32);
                 set_last(&matter, num(1) as u32, num(2));
                 "ok".into()
             }
@@ -406,6 +408,9 @@ fn run_d(ops: &str) -> String {
         // re-stamp: what the operation touched gets the logical time, everything else keeps its stamp
         let after = table(&matter);
         for a in &after {
+            if stamped == Some(a.id) {
+                continue;
+            }
             let old = before.iter().find(|b| b.id == a.id);
             match (old, now) {
                 (Some(b), _) if b.last == a.last => {}
